@@ -1,6 +1,6 @@
 """Oracle: C17 — Oracle.tla / OracleTrace.tla / harness/cmd/oracle."""
 import os
-from props import ModuleCheck, T
+from props import ModuleCheck, T, bundled
 
 ORACLE_CLAUSES_C17 = ["C17_Append", "C17_Aggregate", "C17_History", "C17_StateMirror", "C17_Authority"]
 
@@ -9,6 +9,8 @@ ORACLE_RND = T(
      dict(n=10, len=30, procs=6, cfg="users=3,provs=2,funds=45,maxfeeds=2,maxtimeout=2")],
     [dict(n=60, len=40, procs=7, cfg="users=2,provs=3,funds=60,maxfeeds=3,maxtimeout=3"),
      dict(n=60, len=40, procs=7, cfg="users=3,provs=2,funds=45,maxfeeds=2,maxtimeout=2")])
+# multi-message transactions (runs of one signer's messages delivered as one real transaction)
+bundled(ORACLE_RND)
 ORACLE_GEN = T([dict(cfg="GEN_Oracle.cfg", num=12, depth=24, seeds=8)],
                [dict(cfg="GEN_Oracle.cfg", num=60, depth=28, seeds=14)])
 ORACLE_MC = T([dict(cfg="MC_Oracle.cfg", timeout=1500),
@@ -35,7 +37,7 @@ ORACLE_SCN = [dict(file="scenarios/oracle_cover.ndjson", cfg=_SCN_CFG),
 CLOCK = dict(binary="oracle", mode="clock", cfg="")
 
 # histories recorded (VERIF_RECORD_DIR) and replayed by the cross-module checks C11 / C12
-RECORD = [dict(binary="oracle", n=T(3, 12), len=30, cfg="users=2,provs=3,funds=60,maxfeeds=3,maxtimeout=3")]
+RECORD = [dict(binary="oracle", n=T(3, 12), len=30, cfg="users=2,provs=3,funds=60,maxfeeds=3,maxtimeout=3" + ",bundle=30")]
 
 PROPS = {
     "C17": ModuleCheck("oracle", "Oracle.tla", "OracleTrace.tla", "OracleTrace.cfg", ORACLE_CLAUSES_C17,
